@@ -51,8 +51,7 @@ def eval (op : String) (args : List Sexp) : Option (Res Int) := do
   | "date", [t] =>                        -- dt(<datetime.date>): rebuilt from its fields
       let t ← timeOf t
       if 0 ≤ t ∧ t < MAXUS then pure (dtDate t) else none
-  | "str", [.atom "uk", s] => dtStr true (← strOf s)
-  | "str", [.atom "us", s] => dtStr false (← strOf s)
+  | "str", [.atom d, s] => dtStrD d (← strOf s)    -- the dialect verbatim: 'uk', 'UK', 'Uk', 'us', 'US', ... (C04-D6)
   | "rt", [t] => dtStr true (dt2str (← timeOf t))
   | _, _ => none
 
